@@ -8,6 +8,8 @@ import (
 	"fmt"
 	"go/ast"
 	"go/token"
+	"os"
+	"runtime"
 	"sort"
 	"strconv"
 	"strings"
@@ -362,6 +364,18 @@ func (x reaction) String() string {
 
 const waitFrame = 60 * time.Second
 
+// dumpStacks writes all goroutine stacks to stderr (kept by ./check in the replay file) when a
+// watchdog expires, so that a hang can be told from a slow machine.
+func dumpStacks() {
+	buf := make([]byte, 1<<20)
+	n := runtime.Stack(buf, true)
+	os.Stderr.Write(buf[:n])
+	if f, err := os.CreateTemp("", "c41-stacks-*.txt"); err == nil {
+		f.Write(buf[:n])
+		f.Close()
+	}
+}
+
 type connHarness struct {
 	c       *hc.Ctx
 	conn    *mtproto.Conn
@@ -541,6 +555,7 @@ func runConn(c *hc.Ctx, r *hc.RNG) (line, impl string, tie, nontrivial bool, err
 					returned = true
 					continue
 				case <-time.After(waitFrame):
+					dumpStacks()
 					return lb.String(), "", false, false, fmt.Errorf("Invoke wrote no frame within %s (input %s)", waitFrame, lb.String())
 				}
 				frames = append(frames, f)
@@ -571,6 +586,7 @@ func runConn(c *hc.Ctx, r *hc.RNG) (line, impl string, tie, nontrivial bool, err
 					h.deliver(&proto.Result{RequestMessageID: f.msgID, Result: encode(&mt.MsgsAck{MsgIDs: []int64{1}}).Buf})
 					invErr = <-done
 				case <-time.After(waitFrame):
+					dumpStacks()
 					return lb.String(), "", false, false, fmt.Errorf("Invoke did not return within %s (input %s)", waitFrame, lb.String())
 				}
 			}
